@@ -13,7 +13,7 @@ from vf.xmodel import Schema, Rop, build_api, build_loader
 
 SHARDS = {'quick': 16, 'thorough': 32}
 TIMEOUT = {'quick': 900, 'thorough': 5400}
-MUST_HIT = ['SortOracle.rejected-calls-in-history', 'SortOracle.same-set-sorted-before-and-after-edits', 'SortOracle.some-whole-chains', 'SortOracle.ring-with-outsiders', 'SortOracle.other-reflexive-associations', 'SortOracle.after-edit-history', 'SortOracle.mixed-subset-termination', 'SortOracle.chains', 'SortOracle.ring', 'StepBudget.guarded-calls', 'SortOracle.subset-termination']
+MUST_HIT = ['SortOracle.very-long-chain', 'SortOracle.rejected-calls-in-history', 'SortOracle.same-set-sorted-before-and-after-edits', 'SortOracle.some-whole-chains', 'SortOracle.ring-with-outsiders', 'SortOracle.other-reflexive-associations', 'SortOracle.after-edit-history', 'SortOracle.mixed-subset-termination', 'SortOracle.chains', 'SortOracle.ring', 'StepBudget.guarded-calls', 'SortOracle.subset-termination']
 MUST_REACH = ['xtuml/meta.py:sort_reflexive', 'xtuml/meta.py:sort_reflexive.<locals>.sequence_generator']
 ANCHORS = MUST_REACH
 MIN_NONTRIVIAL = {'quick': 500, 'thorough': 500}
@@ -396,6 +396,32 @@ def run(ctx):
             ctx.count('random_sets')
         except Mismatch as e:
             ctx.violation(e.key, e.what, case=dict(kind='random', n=n, arrangement=chains, order=order))
+    # one chain / one ring far longer than anything above (a sort must not need one interpreter stack frame, or
+    # anything else that runs out, per member)
+    if ctx.shard < 2 or ctx.tier == 'thorough':
+        n = rng.choice((1500, 2500, 4000))
+        perm = list(range(n))
+        rng.shuffle(perm)
+        order = list(range(n))
+        rng.shuffle(order)
+        import sys
+        limit = sys.getrecursionlimit()
+        try:
+            ctx.hit('SortOracle.very-long-chain')
+            # (the worker runs with a raised recursion limit for its own deep generators; this sort runs under
+            # the interpreter's default, as it does for a user)
+            sys.setrecursionlimit(1000)
+            try:
+                check_chains(ctx, budget, n, (tuple(perm),), 'api', order)
+                check_ring(ctx, budget, n, tuple(perm), 'api', rng.randrange(n))
+            finally:
+                sys.setrecursionlimit(limit)
+            ctx.case(('long', n, tuple(perm[:8])), True)
+        except Mismatch as e:
+            ctx.violation(e.key, e.what[:2000], case=dict(kind='long', n=n))
+        except RecursionError as e:
+            ctx.violation('chains/recursion-limit', 'sorting one chain (or ring) of %d members raised RecursionError' % n,
+                          case=dict(kind='long', n=n))
     ctx.hit('StepBudget.guarded-calls', budget.guarded)
     for k, v in HITS.items():
         ctx.hit('SortOracle.' + k, v)
